@@ -952,6 +952,8 @@ fn main() {
     let args: Vec<String> = std::env::args().collect();
     let heartbeat = Arc::new(Mutex::new((String::new(), Instant::now())));
     let hb2 = heartbeat.clone();
+    let shared: Arc<Mutex<Vec<String>>> = Arc::new(Mutex::new(vec![]));
+    let shared2 = shared.clone();
     // watchdog: an operation that does not return is a termination failure (C02)
     std::thread::spawn(move || loop {
         std::thread::sleep(Duration::from_millis(500));
@@ -960,7 +962,9 @@ fn main() {
             (h.0.clone(), h.1)
         };
         if !s.is_empty() && t.elapsed() > Duration::from_secs(20) {
-            println!("{{\"violations\":[{{\"props\":[\"C02\"],\"ops\":{:?},\"msg\":\"the last operation of this sequence (or a traversal after it) does not return\"}}],\"sequences\":0,\"hang\":true}}", s);
+            let mut parts = shared2.lock().unwrap().clone();
+            parts.push(format!("{{\"props\":[\"C02\"],\"ops\":{:?},\"msg\":\"the last operation of this sequence (or a traversal after it) does not return\"}}", s));
+            println!("{{\"violations\":[{}],\"sequences\":0,\"hang\":true}}", parts.join(","));
             std::process::exit(0);
         }
     });
@@ -971,6 +975,9 @@ fn main() {
         if let Some(vl) = o.viol {
             let seq: Vec<String> = ops[..o.steps].iter().map(op_str).collect();
             for p in vl.props {
+                if !found.contains_key(p) && p != "MODEL" {
+                    shared.lock().unwrap().push(format!("{{\"props\":[{:?}],\"ops\":{:?},\"msg\":{:?}}}", p, seq.join("; "), vl.msg));
+                }
                 found.entry(p).or_insert((seq.join("; "), vl.msg.clone()));
             }
         }
